@@ -183,7 +183,6 @@ CLASSES = [
     ("K_float_macro", ("c", "cpp"), lambda F, u: F["float_const"], r"FLOAT|DOUBLE|in-class initializer for static data member of type 'const (float|double)'|constexpr"),
     ("K_rust_float_int_literal", ("rust",), lambda F, u: F["float_int_literal"], r"mismatched types|expected `f(32|64)`, found integer|E0308"),
     ("K_cpp_untyped_objarr", ("cpp",), lambda F, u: F["untyped_objarr"] or (u and F["objarr"]), r"has no member named '(get|consume)'|no member named '(get|consume)'|ProxyBase|Object"),
-    ("K_untyped_drops_const", ("c",), lambda F, u: u and F["objarr"], r"discards 'const' qualifier|discarded-array-qualifiers|discards qualifiers"),
 ]
 
 
@@ -216,7 +215,7 @@ def c_sig(gctx, idx, params, untyped=False):
                 out.append(("Object %s" if d == "in" else "Object *%s") % pn)
             else:
                 n = int(sh[1:-1])
-                out.append(("const Object (*%s_ptr)[%d]" if d == "in" and not untyped else "Object (*%s_ptr)[%d]") % (pn, n))
+                out.append(("const Object (*%s_ptr)[%d]" if d == "in" else "Object (*%s_ptr)[%d]") % (pn, n))
         elif sh is None and t != "buffer":
             ct = CT.get(t, t)
             if d == "in":
